@@ -858,7 +858,9 @@ def read_uint(bs, i):
     p = bs[i]
     if p < 0x80:
         return p, i + 1
-    n = {0x80: 1, 0x81: 2, 0x82: 4, 0x83: 8}[p]
+    n = {0x80: 1, 0x81: 2, 0x82: 4, 0x83: 8}.get(p)
+    if n is None:
+        return None, i + 1           # not an unsigned-integer class: the caller sees a mismatch
     return int.from_bytes(bytes(bs[i + 1:i + 1 + n]), 'little'), i + 1 + n
 
 
@@ -1373,6 +1375,9 @@ def check_C16(ctx):
                 left_ -= need_
         else:
             inner_ = [x for x in f.get('inner', '-').split(',') if x and x != '-']
+            if 'inner' in f and len(inner_) < may_reach_:
+                ctx.violate('not-forwarded', 'a call that fits under the limit was not passed to the wrapped object: %d calls fit under the limit %d but the wrapped object saw only %s: %s -> %s' %
+                            (may_reach_, lim, f.get('inner', '-')[:160], line[:200], f['res'][:120]), {'case': line, 'output': o})
             if len(inner_) > may_reach_:
                 ctx.violate('limit-exceeded', 'a call refused by the limit still reached the wrapped object: %d calls fit under the limit %d but the wrapped object saw %s: %s -> %s' %
                             (may_reach_, lim, f.get('inner', '-')[:160], line[:200], f['res'][:120]), {'case': line, 'output': o})
@@ -1538,12 +1543,21 @@ def check_C17(ctx):
         if bad:
             ctx.violate('writer-contract:' + k, 'StreamWriter over a stream that takes %d bytes: %s: %s -> %s' % (cap, bad, line[:200], o[:160]), {'case': line, 'output': o})
     # compile time = run time = documented format
-    cx = run_prim(pool, ['cxcases'])[0]
+    cxerr = os.path.join(pool.dir, 'cx.err')
+    if os.path.exists(cxerr):
+        ctx.violate('constexpr-build', 'the values of harness/cx.cpp (a structure, a nested structure with an array, a named table, an array of '
+                    'structures holding -64, -129, -32769, 2^31, 2^32-class integers) can no longer be serialized by a constant expression '
+                    'into Encoding<T>::Size bytes through ConstexprBufferWriter', {'program': 'harness/cx.cpp', 'compiler_output': open(cxerr).read()[-3000:]})
+        cx = ''
+    else:
+        cx = run_parallel([os.path.join(pool.dir, 'cx')], ['cxcases'], env=ASAN_ENV, what='cx')[0]
     f = sx.fields(cx)
     fam = dict((name, (t, val)) for t, (name, val) in nopgen.cx_family())
     descs = [nopgen.desc(t) for t in pool.types]
     for name, (t, val) in fam.items():
         ctx.count('constexpr', name)
+        if name not in f:
+            continue
         tid = descs.index(nopgen.desc(t))
         ct, rt, rt2 = f[name].split('/')
         mm = sx.fields(run_driver(pool, ['enc T%d %s' % (tid, val)])[0])
@@ -1746,6 +1760,15 @@ def run(pid, tier, seed, replay=None):
     ctx = Ctx(pid, tier, seed)
     try:
         return CHECKS[pid](ctx)
+    except Exception as e:
+        # the check's own analysis tripped over what the implementation produced (an output shape it never has on the
+        # unchanged tree): the property is not shown to hold on this tree
+        import traceback
+        ctx.violate('checker-error', 'the analysis of the implementation\'s output failed (%s: %s); on the unchanged tree it does not' % (type(e).__name__, str(e)[:120]),
+                    {'no_failing_input': True, 'correspondence': 'analysis of harness output', 'traceback': traceback.format_exc()[-2500:]})
+        if not hasattr(ctx, 'proof'):
+            ctx.proof = {'obligations': 0, 'discharged': 0, 'detail': [], 'ok': True}
+        return finish_with_proofs(ctx)
     except HarnessBuildError as e:
         # the implementation side of the correspondence cannot be built against the current tree: nothing ties the model to
         # the code any more, so the property is not shown to hold (and no input can be exhibited)
